@@ -25,6 +25,70 @@ pub trait Engine {
     fn end_case(&mut self, _o: &mut Oracle) {}
 }
 
+/// Watchdog shared with a monitor thread: if one operation of the REAL implementation does not return within
+/// `VERIF_OP_TIMEOUT` seconds (default 120), the monitor writes `<outdir>/<name>.hang` (case id + the op lines of the
+/// current case, the last one being the call that hangs) and ends the process with exit code 3.  `./check` turns that
+/// into a VIOLATION with those ops as the replay.  (A hung thread cannot be cancelled, hence the process exit.)
+pub struct Watch {
+    pub state: std::sync::Mutex<WatchState>,
+}
+pub struct WatchState {
+    pub busy_since: Option<std::time::Instant>,
+    pub case_id: String,
+    pub case_ops: Vec<String>,
+    pub hang_path: String,
+}
+pub static WATCH: std::sync::OnceLock<Watch> = std::sync::OnceLock::new();
+
+pub fn start_watchdog(outdir: &str, name: &str) {
+    let limit: u64 = std::env::var("VERIF_OP_TIMEOUT").ok().and_then(|x| x.parse().ok()).unwrap_or(120);
+    let _ = WATCH.set(Watch {
+        state: std::sync::Mutex::new(WatchState {
+            busy_since: None,
+            case_id: String::new(),
+            case_ops: Vec::new(),
+            hang_path: format!("{}/{}.hang", outdir, name),
+        }),
+    });
+    std::thread::spawn(move || loop {
+        std::thread::sleep(std::time::Duration::from_millis(500));
+        if let Some(w) = WATCH.get() {
+            let st = w.state.lock().unwrap();
+            if let Some(t) = st.busy_since {
+                if t.elapsed().as_secs() >= limit {
+                    let v = serde_json::json!({"case": st.case_id, "ops": st.case_ops, "timeout_s": limit});
+                    let _ = std::fs::write(&st.hang_path, serde_json::to_string(&v).unwrap());
+                    eprintln!("watchdog: operation did not return within {} s: {:?}", limit, st.case_ops.last());
+                    std::process::exit(3);
+                }
+            }
+        }
+    });
+}
+
+fn watch_case(id: &str) {
+    if let Some(w) = WATCH.get() {
+        let mut st = w.state.lock().unwrap();
+        st.case_id = id.to_string();
+        st.case_ops.clear();
+        st.case_ops.push(format!("case {}", id));
+    }
+}
+fn watch_begin(op: &str) {
+    if let Some(w) = WATCH.get() {
+        let mut st = w.state.lock().unwrap();
+        if st.case_ops.len() < 100_000 {
+            st.case_ops.push(op.to_string());
+        }
+        st.busy_since = Some(std::time::Instant::now());
+    }
+}
+fn watch_end() {
+    if let Some(w) = WATCH.get() {
+        w.state.lock().unwrap().busy_since = None;
+    }
+}
+
 pub struct Ctx {
     pub tier_thorough: bool,
     pub seed: u64,
@@ -82,6 +146,7 @@ impl Ctx {
 
     /// start a new case: resets stateful model engines
     pub fn case(&mut self, id: &str) {
+        watch_case(id);
         self.cur_case = id.to_string();
         self.evaluations += 1;
         writeln!(self.ops, "case {}", id).unwrap();
@@ -92,7 +157,9 @@ impl Ctx {
     /// execute `op` on the engine (real code), record op + observation, return the observation
     pub fn step(&mut self, eng: &mut dyn Engine, op: &str) -> String {
         let mut o = Oracle::default();
+        watch_begin(op);
         let obs = eng.exec(op, &mut o);
+        watch_end();
         self.op(op, &obs);
         for (c, d) in o.fails {
             self.oracle_fail(&c, &format!("{} :: op `{}` -> `{}`", d, trunc(op), trunc(&obs)));
